@@ -160,10 +160,18 @@ fn kh(k: u64) -> Ed25519KeyHash {
 fn key_cred(k: u64) -> Credential { Credential::from_keyhash(&kh(k)) }
 fn entropy_from(a: u64) -> Vec<u8> { Rng::new(0xB1_0000 ^ a).bytes(32) }
 fn byron_key(a: u64) -> Bip32PrivateKey { BYRON_KEYS.with(|t| Bip32PrivateKey::from_bytes(&t[(a % 3) as usize]).unwrap()) }
-/// Byron address number a (0..5): key a mod 3; mainnet magic (no attributes) for a < 3, a testnet magic (network-magic attribute) else
+/// Byron address number a = id mod 9: key a mod 3; 0..2 mainnet Icarus (no attributes), 3..5 testnet-magic Icarus (network-magic attribute), 6..8 Daedalus
 const TESTNET_MAGIC: u32 = 1097911063;
+/// numbers 6..8: legacy Daedalus-style mainnet addresses (their attributes hold the 30-byte HD derivation-path payload:
+/// 34 attribute bytes); the bootstrap witness the harness attaches copies the attributes of the address it is for
+const DAEDALUS: [&str; 3] = [
+    "DdzFFzCqrhsrcTVhLygT24QwTnNqQqQ8mZrq5jykUzMveU26sxaH529kMpo7VhPrt5pwW3dXeB2k3EEvKcNBRmzCfcQ7dTkyGzTs658C",
+    "DdzFFzCqrht4it4GYgBp4J39FNnKBsPFejSppARXHCf2gGiTJcwXzpRvgDmxPvKQ8aZZmVqcLUz5L66a8Ja46pfKVtFRaKyn9eKdvpaC",
+    "DdzFFzCqrhsvNQtyViTvEdGxfdc5T1E5RorzFWjYodqjhFDy8fQxfDPccmTc4ePbvkiwvRkR8dtqQ1SHpH53fDSoxD17fo9f6WkRjjAA"];
 fn byron_addr(a: u64) -> ByronAddress {
-    let magic = if (a % 6) < 3 { NetworkInfo::mainnet().protocol_magic() } else { TESTNET_MAGIC };
+    let a = a % 9;
+    if a >= 6 { return ByronAddress::from_base58(DAEDALUS[(a - 6) as usize]).unwrap(); }
+    let magic = if a < 3 { NetworkInfo::mainnet().protocol_magic() } else { TESTNET_MAGIC };
     ByronAddress::icarus_from_key(&byron_key(a).to_public(), magic)
 }
 
@@ -235,7 +243,7 @@ fn utxo_address(id: u64, kind: u32) -> Option<Address> {
     match kind {
         0 => Some(if (id / 2) % 2 == 0 { EnterpriseAddress::new(1, &key_cred(utxo_key(id))).to_address() }
                   else { BaseAddress::new(1, &key_cred(utxo_key(id)), &key_cred((id + 5) % POOL)).to_address() }),
-        1 => Some(byron_addr(id % 6).to_address()),
+        1 => Some(byron_addr(id % 9).to_address()),
         _ => None,
     }
 }
@@ -751,8 +759,8 @@ fn run_op(w: &mut World, op: &Op, last_tx: &mut Option<Transaction>) -> OpRec {
                             match u.kind {
                                 0 => { if u.id % 4 == 0 { ib.add_key_input(&kh(utxo_key(u.id)), &input, &value); Ok(()) }
                                        else { ib.add_regular_input(&utxo_address(u.id, 0).unwrap(), &input, &value) } }
-                                1 => { if u.id % 4 == 0 { ib.add_bootstrap_input(&byron_addr(u.id % 6), &input, &value); Ok(()) }
-                                       else { ib.add_regular_input(&byron_addr(u.id % 6).to_address(), &input, &value) } }
+                                1 => { if u.id % 4 == 0 { ib.add_bootstrap_input(&byron_addr(u.id % 9), &input, &value); Ok(()) }
+                                       else { ib.add_regular_input(&byron_addr(u.id % 9).to_address(), &input, &value) } }
                                 2 => { ib.add_native_script_input(&utxo_native_source(u.id), &input, &value); Ok(()) }
                                 3..=8 => { ib.add_plutus_script_input(&plutus_witness(&u), &input, &value); Ok(()) }
                                 9 => { ib.add_native_script_input(&ref_native_source(u.refsize, u.id), &input, &value); Ok(()) }
@@ -943,7 +951,7 @@ fn signed_figures(w: &World, tx: &Transaction) -> String {
         let u = w.utxos.get(&id).expect("input of the body is a UTxO of the scenario");
         match u.kind {
             0 => { keys.insert(utxo_key(id)); }
-            1 => { boots.insert(id % 6); }
+            1 => { boots.insert(id % 9); }
             2 => { keys.extend(utxo_native_keys(id)); }
             9 => { keys.extend(ref_native_keys(u.refsize)); }
             _ => {}
@@ -1160,7 +1168,7 @@ fn shuffle_ops(r: &mut Rng, pre: &mut Vec<Op>) {
 
 fn gen_certs(r: &mut Rng, edge: bool) -> Vec<(u32, Option<BigNum>)> {
     let n = r.range(1, 5);
-    (0..n).map(|_| { let t = *r.pick(&CERT_TAGS); let c = if tag_has_coin(t) { Some(b64(if edge { r.u64_edge() } else { r.range(0, 5_000_000) })) } else { None }; (t, c) }).collect()
+    (0..n).map(|_| { let t = *r.pick(&CERT_TAGS); let c = if tag_has_coin(t) { Some(b64(if r.chance(1, 5) { 0 } else if edge { r.u64_edge() } else { r.range(0, 5_000_000) })) } else { None }; (t, c) }).collect()
 }
 
 const REF_SIZES: [u64; 12] = [0, 1, 100, 2500, 2500, 14000, 25599, 25600, 25601, 51200, 60000, 200000];
@@ -1378,7 +1386,7 @@ fn gen_scenario(r: &mut Rng, stream: u32) -> Scenario {
             if r.chance(1, 6) { let a = 61 + r.below(11); ids.push(a); plutus_wd = true; wd_ref = Some(WDREF[(a - 61) as usize]); }
             while ids.len() < n { let a = r.range(1, 11); if !ids.contains(&a) { ids.push(a); } }
             shuffle(r, &mut ids);
-            pre.push(Op::Wd(Some(ids.into_iter().map(|a| (a, b64(if edge { r.u64_edge() } else { r.range(0, 3_000_000) }))).collect())));
+            pre.push(Op::Wd(Some(ids.into_iter().map(|a| (a, b64(if r.chance(1, 4) { 0 } else if edge { r.u64_edge() } else { r.range(0, 3_000_000) }))).collect())));
         }
         if r.chance(1, 3) { pre.push(Op::Don(b64(if edge { r.u64_edge() } else { r.range(0, 2_000_000) }))); }
         if r.chance(1, 4) { pre.push(Op::Treas(b64(r.below(3) * 1_000_000_000))); }
